@@ -67,8 +67,42 @@ fn res<T>(r: anyhow::Result<T>) -> Value {
     }
 }
 
+/// the state-machine actor asked to apply an entry BEFORE its dependencies are injected (what the raft core of an
+/// auto-initialised node can do at start-up): it must stay alive (the request waits), not die on an unwrap
+fn bare_apply() -> Value {
+    use actix::Actor;
+    use rnacos::raft::filestore::model::ApplyRequestDto;
+    use rnacos::raft::filestore::raftapply::{StateApplyAsyncRequest, StateApplyManager, StateApplyRequest, StateApplyResponse};
+    use rnacos::raft::store::ClientRequest;
+    let r = std::panic::catch_unwind(|| {
+        let sys = actix_rt::System::new();
+        sys.block_on(async {
+            let addr = StateApplyManager::new().start();
+            let req = StateApplyAsyncRequest::ApplyRequest(ApplyRequestDto::new(1, ClientRequest::Members(vec![1])));
+            let first = match tokio::time::timeout(Duration::from_millis(400), addr.send(req)).await {
+                Err(_) => "waiting".to_string(),
+                Ok(Ok(Ok(_))) => "applied".to_string(),
+                Ok(Ok(Err(e))) => format!("error: {}", e),
+                Ok(Err(e)) => format!("mailbox: {}", e),
+            };
+            let alive = matches!(
+                tokio::time::timeout(Duration::from_millis(400), addr.send(StateApplyRequest::GetLastAppliedLog)).await,
+                Ok(Ok(Ok(StateApplyResponse::LastAppliedLog(_))))
+            );
+            json!({"first": first, "alive": alive})
+        })
+    });
+    match r {
+        Ok(v) => v,
+        Err(_) => json!({"first": "panic", "alive": false}),
+    }
+}
+
 impl Suite for AckChain {
     fn run(&mut self, case: &Value) -> Value {
+        if case["mode"].as_str() == Some("bare_apply") {
+            return bare_apply();
+        }
         let leader = case["mode"].as_str() == Some("leader");
         let slot = if leader { &mut self.leader } else { &mut self.other };
         if slot.is_none() {
